@@ -4,6 +4,7 @@ package sim
 // an honest entry, and the "bad entry" kinds a byzantine sender can produce.
 
 import (
+	"bytes"
 	"encoding/json"
 	"fmt"
 
@@ -35,6 +36,7 @@ const (
 	tKeyResize
 	tNextDup
 	tRefsDup
+	tPayloadSpace
 	nTamper
 )
 
@@ -48,7 +50,7 @@ const (
 )
 
 var tamperNames = [...]string{"payload-byte", "log-id", "next-add", "next-drop", "next-order", "refs-add", "refs-drop", "refs-order",
-	"version", "clock-id", "clock-time", "key-substituted", "sig-substituted", "sig-bitflip", "clock-id-emptied", "next-link-codec", "refs-link-codec", "key-bitflip", "key-resized", "next-duplicated", "refs-duplicated", "unsigned", "key-removed", "foreign-log-id"}
+	"version", "clock-id", "clock-time", "key-substituted", "sig-substituted", "sig-bitflip", "clock-id-emptied", "next-link-codec", "refs-link-codec", "key-bitflip", "key-resized", "next-duplicated", "refs-duplicated", "payload-whitespace", "unsigned", "key-removed", "foreign-log-id"}
 
 // dupLinksCanonicalised is set by the world while its codec is the link-encrypting one.
 var dupLinksCanonicalised bool
@@ -162,6 +164,13 @@ func tamper(r *Run, e iface.IPFSLogEntry, kind int, other iface.IPFSLogEntry, ot
 		if otherKey == nil || string(otherKey) == string(c.Key) {
 			return res
 		}
+		// (the same key in another encoding is no substitution of a different key)
+		if a, errA := crypto.UnmarshalSecp256k1PublicKey(c.Key); errA == nil {
+			if b, errB := crypto.UnmarshalSecp256k1PublicKey(otherKey); errB == nil && a.Equals(b) {
+				r.Probe("key-reencoded-same-key")
+				return res
+			}
+		}
 		c.Key = append([]byte(nil), otherKey...)
 		res.applied = true
 	case tSigSubst:
@@ -200,6 +209,22 @@ func tamper(r *Run, e iface.IPFSLogEntry, kind int, other iface.IPFSLogEntry, ot
 			return res
 		}
 		c.Next = append(c.Next, c.Next[r.Choose("t-pos", len(c.Next))])
+		res.applied = true
+	case tPayloadSpace:
+		// a change that a parser of the payload would not see: one blank of a structured payload becomes a tab
+		// (or a blank is inserted after its first comma). The payload is bytes to the log: every byte is signed.
+		i := bytes.IndexByte(c.Payload, ' ')
+		j := bytes.IndexByte(c.Payload, ',')
+		switch {
+		case i >= 0:
+			c.Payload[i] = '\t'
+			res.detail = fmt.Sprintf("payload[%d] blank->tab", i)
+		case j >= 0:
+			c.Payload = append(c.Payload[:j+1], append([]byte{' '}, c.Payload[j+1:]...)...)
+			res.detail = fmt.Sprintf("blank inserted at payload[%d]", j+1)
+		default:
+			return res
+		}
 		res.applied = true
 	case tRefsDup:
 		if len(c.Refs) == 0 || dupLinksCanonicalised {
